@@ -114,3 +114,11 @@ Definition exec_trace_sync (metrics : bool) (its : list item) : list Z :=
   let f := Z.of_nat (length (filter fails its)) in
   let c (k : Z) : Z := if metrics then k else 0 in
   [2; 0; 70; c (n - f); c f;  2; 0; 71; 0; f;  2; 0; 72; Z.min 1 n; n;  2; 0; 73; 0; 1;  2; 0; 74; 1; n;  2; 0; 75; status_code (srun [SStart; SFinish]); 0;  2; 0; 78; f; f; 9].
+
+(* ---- the Uni's close callback is latched over its MAX_STREAMS executors (uni.rs latch_callback_1p): a counter starts at M, every
+   executor's end does fetch_sub(1), the one that reads 1 runs the callback ---- *)
+Definition latch_fires (seen : nat) : bool := Nat.eqb seen 1.
+Fixpoint latch_run (counter : nat) (ends : nat) : list bool :=       (* one entry per executor end: did it run the callback? *)
+  match ends with O => [] | S e => latch_fires counter :: latch_run (counter - 1) e end.
+Definition latch_trace (M : nat) (n : Z) : list Z :=
+  [2; 0; 79; Z.of_nat (length (filter (fun b => b) (latch_run M M))); n;  2; 0; 80; Z.of_nat M; Z.of_nat M;  9].
